@@ -214,9 +214,20 @@ func Mergeable(rng *rand.Rand, opt Options) []*Service {
 			for k := 0; k < nf; k++ {
 				fs = append(fs, Field{Name: fmt.Sprintf("%s_f%d", strings.ToLower(v.name), k), Type: scalars[rng.Intn(len(scalars))]})
 			}
+			// one of the declaring services may let its copy implement an interface the others do not know
+			withIface := -1
+			if opt.Rich && len(v.services) > 1 && rng.Intn(3) == 0 {
+				withIface = v.services[rng.Intn(len(v.services))]
+				fs = append(fs, Field{Name: "label", Type: "String"})
+			}
 			for _, si := range v.services {
 				d := ss[si].ensure("OBJECT", v.name)
 				d.Fields = append([]Field(nil), fs...)
+				if si == withIface {
+					nd := ss[si].ensure("INTERFACE", "Named")
+					nd.Fields = []Field{{Name: "label", Type: "String"}}
+					d.Ifaces = append(d.Ifaces, "Named")
+				}
 			}
 		} else {
 			for _, si := range v.services {
